@@ -267,6 +267,7 @@ pub fn run(ctx: Arc<Ctx>) {
 		ctxr.trace(1);
 	});
 	systematic(&ctx, &work.0);
+	after_a_failure(&ctx, &work.0);
 	big_tables(&ctx, &work.0);
 	ctx.sample(json!({"catalogue": cat.iter().map(|c| c.0).collect::<Vec<_>>(), "example_source_list": tuples[tuples.len() / 2].iter().map(|i| cat[*i].0).collect::<Vec<_>>()}));
 	ctx.outcome_n("source lists (ordered tuples)", tuples.len() as u64);
@@ -348,6 +349,59 @@ fn systematic(ctx: &Arc<Ctx>, work: &std::path::Path) {
 	});
 	ctx.extra("systematic_small_layers", json!({"family_size": all.len(), "used_per_side": n, "ordered_pairs": n as u64 * n as u64}));
 	ctx.trace(1);
+}
+
+/// A damaged tile in one source makes the merge fail at its coordinate; the lookups that follow (same thread, same
+/// pipeline) at coordinates where every source is intact must be unaffected by that failure.
+fn after_a_failure(ctx: &Arc<Ctx>, work: &std::path::Path) {
+	let cat = catalogue();
+	let good: Vec<Vec<u8>> = [0usize, 1, 2, 3].iter().map(|i| mvt::encode_tile(&cat[*i].1)).collect();
+	let dec: Vec<Vec<DLayer>> = good.iter().map(|g| mvt::decode_tile(g).unwrap()).collect();
+	let rt = tokio::runtime::Builder::new_current_thread().build().unwrap();
+	for comp in [1u8, 2] {
+		// damaged variants of a compressed tile: wrong checksum / truncated / garbage after a valid start
+		let whole = codec::encode_with(comp, &good[3]);
+		let mut crc = whole.clone();
+		let n = crc.len();
+		crc[n - 5] ^= 0xff;
+		let damaged: Vec<(&str, Vec<u8>)> = vec![("checksum damaged", crc), ("truncated", whole[..whole.len() * 2 / 3].to_vec()), ("tail replaced", { let mut t = whole[..whole.len() / 2].to_vec(); t.extend_from_slice(&[0x55; 40]); t })];
+		for (dname, bad) in damaged {
+			let mut ta = TileMap::new();
+			let mut tb = TileMap::new();
+			for (i, g) in good.iter().enumerate().take(3) {
+				ta.insert((4, i as u32, 0), codec::encode_with(comp, g));
+				tb.insert((4, i as u32, 0), codec::encode_with(comp, &good[(i + 1) % 3]));
+			}
+			ta.insert((4, 9, 9), bad.clone());
+			tb.insert((4, 9, 9), codec::encode_with(comp, &good[0]));
+			let fac = pipeline::factory(vec![MemSource::new("sa", ta, TileFormat::PBF, ct::comp_from_id(comp)), MemSource::new("sb", tb, TileFormat::PBF, ct::comp_from_id(comp))], work);
+			let vpl = "from_vectortiles_merged [ from_container filename=\"mem:0\", from_container filename=\"mem:1\" ]";
+			let Ok(op) = pipeline::build_op(&rt, &fac, vpl) else { continue };
+			let src = AnySrc::Op(op);
+			let case = json!({"after_failure": dname, "compression": comp});
+			for round in 0..3 {
+				ctx.eval();
+				// the failing coordinate first (its answer is not judged), then every intact coordinate
+				let _ = catch(|| rt.block_on(src.lookup((4, 9, 9))));
+				for i in 0..3u32 {
+					let want = reference_merge(&[dec[i as usize].clone(), dec[((i + 1) % 3) as usize].clone()]);
+					match catch(|| rt.block_on(src.lookup((4, i, 0)))) {
+						Ok(Ok(Some(b))) => match mvt::decode_tile(&b) {
+							Ok(layers) => {
+								if let Some(why) = compare_layers(&layers, &want) {
+									ctx.violation("a merge after a failed one differs from the merge of its own sources", &format!("{dname} (compression {comp}), round {round}, coordinate (4,{i},0): {why}"), case.clone());
+								}
+							}
+							Err(e) => ctx.violation("a merge after a failed one is not a vector tile", &format!("{dname} (compression {comp}), round {round}, coordinate (4,{i},0): {e}"), case.clone()),
+						},
+						other => ctx.violation("a merge after a failed one fails although its own sources are intact", &format!("{dname} (compression {comp}), round {round}, coordinate (4,{i},0): {:?}", other.map(|r| r.map(|o| o.map(|b| b.len())).map_err(|e| e.to_string()))), case.clone()),
+					}
+				}
+			}
+			ctx.nontrivial(fnv_str(&format!("after-failure {dname} {comp}")));
+			ctx.trace(1);
+		}
+	}
 }
 
 /// Two (three) sources whose equally named layers each stay below, but together cross, the sizes at which
